@@ -5,6 +5,11 @@
 (* counters (src/persistence/tenant.rs), and the replicated state machine   *)
 (* that drives it (src/raft/state_machine.rs).                              *)
 (*                                                                         *)
+(* Several tenants share one store and one log; each has its own stored     *)
+(* graph, counters and quota, and nothing done for one tenant may show in    *)
+(* another's scan, recovery or counters (tenant ids may be prefixes of one   *)
+(* another: "t1", "t10", "t1z").                                            *)
+(*                                                                         *)
 (* The WAL and the key-value store are abstract here (atomic append / put / *)
 (* delete / scan; their internals are Wal.tla / KvTenants.tla).             *)
 (*                                                                         *)
@@ -124,18 +129,22 @@ Admissible(p) == usage[call[p].t][Kind(call[p])] + Reserved(p) < quota[call[p].t
 Allowed(t) == {ApplySet(G[t], S) : S \in SUBSET (InFlight(t) \cup {o \in pend : o.t = t})}
 
 \* ---------------------------------------------------------------- initial state
-PInitC(q, c) ==
-    /\ wal = <<>>
-    /\ kv = [t \in Tenants |-> EmptyGraph]
-    /\ usage = [t \in Tenants |-> [n |-> 0, e |-> 0]]
+RECURSIVE ApplySeq(_, _)
+ApplySeq(g, ops) == IF ops = <<>> THEN g ELSE ApplySeq(Effect(g, Head(ops)), Tail(ops))
+
+\* seed: operations acknowledged before the behaviour starts (data other tenants already hold)
+PInitC(q, c, seed) ==
+    /\ wal = [k \in DOMAIN seed |-> WalEntry(seed[k])]
+    /\ kv = [t \in Tenants |-> ApplySeq(EmptyGraph, SelectSeq(seed, LAMBDA o : o.t = t))]
+    /\ usage = [t \in Tenants |-> Counts(ApplySeq(EmptyGraph, SelectSeq(seed, LAMBDA o : o.t = t)))]
     /\ quota = q
     /\ call = c
     /\ pc = [p \in Procs |-> IF c[p] = NoCall THEN "idle" ELSE IF IsCreate(c[p]) THEN "chk" ELSE "wal"]
     /\ res = [p \in Procs |-> "ok"]
-    /\ G = [t \in Tenants |-> EmptyGraph]
+    /\ G = [t \in Tenants |-> ApplySeq(EmptyGraph, SelectSeq(seed, LAMBDA o : o.t = t))]
     /\ pend = {}
     /\ stale = {}
-PInit(q) == PInitC(q, [p \in Procs |-> NoCall])
+PInit(q) == PInitC(q, [p \in Procs |-> NoCall], <<>>)
 
 \* ---------------------------------------------------------------- one persist_* call, step by step
 Begin(p, o) ==
